@@ -293,12 +293,17 @@ where
     use crate::engine::space::{seq_count, seq_decode};
     let nops = IT_OPS.len() as u64;
     let n = reference.len();
-    for h in 0..seq_count(nops, depth) {
+    // second pass: the histories of length <= min(depth - 1, 2) again, with other values of every kind parsed and iterated to their
+    // end between any two calls (`decoy_parse_all`): two iterators alive at the same time on one thread
+    for (h, decoy) in (0..seq_count(nops, depth)).map(|h| (h, false)).chain((0..seq_count(nops, depth.saturating_sub(1).min(2))).map(|h| (h, true))) {
         let seq = seq_decode(nops, h);
         for (ei, end) in IT_ENDS.iter().enumerate() {
             l.states += 1;
             let r = guard::catch(|| {
                 let mut it = mk();
+                if decoy {
+                    decoy_parse_all();
+                }
                 let mut cur = 0usize; // model: cursor into `reference`
                 let describe = |upto: usize, end: Option<&str>| {
                     let mut d = String::from("it");
@@ -343,6 +348,9 @@ where
                     }
                     // asking for the size hint is an observation: it must return and leave the iterator alone
                     let _ = it.size_hint();
+                    if decoy {
+                        decoy_parse_all();
+                    }
                 }
                 if cur > n {
                     return Ok(());
@@ -667,4 +675,95 @@ pub fn unoptimised_build_pass(ctx: &mut Ctx, what: &str) {
     }
     ctx.total.merge_from(l);
     ctx.spaces.push(crate::engine::run::SpaceReport { name: NAME.to_string(), len: 1, done: 1, wall_s: wall });
+}
+
+// ---------------------------------------------------------------------------------------------
+// Buffer reuse
+
+/// Hands `s` to every parsing entry point and forgets the answers (the predecessor step of `ByteSpace::with_pred`).
+/// A panic here is another case's business (the predecessor is a string of the same space, judged as its own case).
+pub fn touch_all_parsers(s: &[u8]) {
+    use rtcp_types::*;
+    let _ = guard::catch(|| {
+        if let Ok(c) = Compound::parse(s) {
+            for p in c.take(s.len() / 4 + 2) {
+                let _ = p;
+            }
+        }
+        let _ = Packet::parse(s).map(|_| ());
+        let _ = SenderReport::parse(s).map(|_| ());
+        let _ = ReceiverReport::parse(s).map(|_| ());
+        let _ = Sdes::parse(s).map(|_| ());
+        let _ = Bye::parse(s).map(|_| ());
+        let _ = App::parse(s).map(|_| ());
+        let _ = TransportFeedback::parse(s).map(|_| ());
+        let _ = PayloadFeedback::parse(s).map(|_| ());
+        let _ = Unknown::parse(s).map(|_| ());
+    });
+}
+
+/// Other parsed values living their whole life while an iterator under observation is half-way: a datagram holding
+/// one packet of every type (with a generic NACK of 40 words and an SLI of 34 entries - longer than a small-list shortcut -
+/// and short lists otherwise) is parsed, every packet of it iterated to its end and its FCI decoded as every
+/// FCI type. What an iterator yields is a function of the bytes it was made from; anything kept outside it (a
+/// `static`, a `thread_local!` scratch buffer) by another iterator shows as a difference from the undisturbed run.
+pub fn decoy_parse_all() {
+    use rtcp_types::*;
+    static DECOY: std::sync::OnceLock<Vec<u8>> = std::sync::OnceLock::new();
+    let d = DECOY.get_or_init(|| {
+        use crate::refmodel::wire::encode;
+        let mut v = Vec::new();
+        let blocks: Vec<Rb> = (0..3).map(|i| gens::sentinel_rb(i, 0xD0)).collect();
+        v.extend(encode(&Pkt::Sr { ssrc: 0xD0D0_0101, ntp: 0x0102_0304_0506_0708, rtp: 9, pc: 10, oc: 11, blocks: blocks.clone(), pad: 0 }));
+        v.extend(encode(&Pkt::Rr { ssrc: 0xD0D0_0102, blocks, pad: 0 }));
+        v.extend(encode(&Pkt::Sdes { chunks: (0..3u32).map(|c| Chunk { ssrc: 0xD0D0_0200 + c, items: (0..(c % 5) as u8).map(|i| Item::new(1 + i, format!("decoy-{}-{}", c, i).as_bytes())).chain(std::iter::once(Item::priv_(b"pfx", b"value"))).collect() }).collect(), pad: 0 }));
+        v.extend(encode(&Pkt::Bye { ssrcs: (0..4u32).map(|i| 0xD0D0_0300 + i).collect(), reason: "decoy datagram".into(), pad: 0 }));
+        v.extend(encode(&Pkt::App { ssrc: 0xD0D0_0400, subtype: 5, name: "dcoy".into(), data: (0..8u8).collect(), pad: 0 }));
+        v.extend(encode(&Pkt::Fb { kind: Kind::Transport, sender: 0xD0D0_0500, media: 0xD0D0_0501, fci: Fci::Nack((0..40u32).map(|i| (i * 19 + 7) as u16).collect()), pad: 0 }));
+        v.extend(encode(&Pkt::Fb { kind: Kind::Payload, sender: 0xD0D0_0600, media: 0xD0D0_0601, fci: Fci::Sli((0..34u16).map(|i| (i * 3, i + 1, (i % 64) as u8)).collect()), pad: 0 }));
+        v.extend(encode(&Pkt::Fb { kind: Kind::Payload, sender: 0xD0D0_0700, media: 0xD0D0_0701, fci: Fci::Fir((0..3u32).map(|i| (0xD0D0_0800 + i, i as u8)).collect()), pad: 0 }));
+        v.extend(encode(&Pkt::Fb { kind: Kind::Payload, sender: 0xD0D0_0900, media: 0xD0D0_0901, fci: Fci::Rpsi { pt: 99, data: (0..50u8).collect(), overrun: 3 }, pad: 0 }));
+        v.extend(encode(&Pkt::Unknown { pt: 211, count: 4, data: (0..32u8).collect(), pad: 8 }));
+        v
+    });
+    let _ = guard::catch(|| {
+        let mut sink = 0u64;
+        if let Ok(c) = Compound::parse(d) {
+            for p in c.take(32).flatten() {
+                match &p {
+                    Packet::Sr(x) => sink += x.report_blocks().map(|b| b.ssrc() as u64).sum::<u64>(),
+                    Packet::Rr(x) => sink += x.report_blocks().map(|b| b.ssrc() as u64).sum::<u64>(),
+                    Packet::Sdes(x) => {
+                        for ch in x.chunks() {
+                            sink += ch.ssrc() as u64 + ch.length() as u64;
+                            for it in ch.items() {
+                                sink += it.value().len() as u64 + it.type_() as u64;
+                            }
+                        }
+                    }
+                    Packet::Bye(x) => sink += x.ssrcs().map(|s| s as u64).sum::<u64>() + x.reason().map(|r| r.len() as u64).unwrap_or(0),
+                    Packet::App(x) => sink += x.data().len() as u64 + x.name()[0] as u64,
+                    Packet::TransportFeedback(x) => {
+                        if let Ok(f) = x.parse_fci::<Nack>() {
+                            sink += f.entries().map(|e| e as u64).sum::<u64>();
+                        }
+                    }
+                    Packet::PayloadFeedback(x) => {
+                        if let Ok(f) = x.parse_fci::<Sli>() {
+                            sink += f.lost_macroblocks().count() as u64;
+                        }
+                        if let Ok(f) = x.parse_fci::<Fir>() {
+                            sink += f.entries().map(|e| e.ssrc() as u64).sum::<u64>();
+                        }
+                        if let Ok(f) = x.parse_fci::<Rpsi>() {
+                            sink += f.bit_string().0.len() as u64 + f.payload_type() as u64;
+                        }
+                        let _ = x.parse_fci::<Pli>();
+                    }
+                    Packet::Unknown(x) => sink += x.data().len() as u64,
+                }
+            }
+        }
+        std::hint::black_box(sink);
+    });
 }
